@@ -182,4 +182,23 @@ def lmnnFit (obj : α → K) (stepFrom : α → K → α) (btFuel minIter : Nat)
   lmnnLoop obj stepFrom btFuel minIter convTol (maxIter - 2) 2 { L := L0, obj := obj L0, rate := rate0 }
 end
 
+/-! ## LMNN's `fit` loop instantiated with the code-level objective and gradient (loop-carried `L` as data) -/
+section
+variable [ScalarT K]
+
+/-- `L_next = L - learn_rate * G` with `G = 2·L·(dfG·reg + df·(1 − reg))` -/
+def lmnnStepCode {k d n} (X : Mat K n d) (targetPairs : List (Fin n × Fin n)) (triples : List (Fin n × Fin n × Fin n))
+    (reg : K) (L : Vector (Vector K d) k) (rate : K) : Vector (Vector K d) k :=
+  let G := (lmnnGradCode (Mat.ofStore L) X targetPairs triples reg).store
+  Vector.ofFn fun a => Vector.ofFn fun b => L[a][b] - rate * G[a][b]
+
+/-- the whole loop of `LMNN.fit` after initialisation: objective = what `_loss_grad` returns, step = a gradient step,
+halving on increase, `×1.01` on acceptance, convergence test after `min_iter` -/
+def lmnnFitCode {k d n} (X : Mat K n d) (targetPairs : List (Fin n × Fin n)) (triples : List (Fin n × Fin n × Fin n))
+    (reg : K) (btFuel minIter : Nat) (convTol : K) (maxIter : Nat) (L0 : Vector (Vector K d) k) (rate0 : K) :
+    LmnnState (Vector (Vector K d) k) K :=
+  lmnnFit (fun L => (lmnnCodeObjective (Mat.ofStore L) X targetPairs triples reg).1)
+    (lmnnStepCode X targetPairs triples reg) btFuel minIter convTol maxIter L0 rate0
+end
+
 end ML
